@@ -75,6 +75,25 @@ theorem keys_filter_sublist (p : Entry → Bool) (es : List Entry) :
 theorem Sorted.filter {es : List Entry} (p : Entry → Bool) (h : Sorted es) : Sorted (es.filter p) :=
   List.Pairwise.sublist (keys_filter_sublist p es) h
 
+/-- a sorted map holds one value per key -/
+theorem sorted_unique_value {es : List Entry} (hs : Sorted es) {k : Key} {v1 v2 : Option Nat}
+    (h1 : (k, v1) ∈ es) (h2 : (k, v2) ∈ es) : v1 = v2 := by
+  induction es with
+  | nil => simp at h1
+  | cons e rest ih =>
+    have ⟨hhead, hrest⟩ := sorted_cons.mp hs
+    rw [List.mem_cons] at h1 h2
+    rcases h1 with h1 | h1 <;> rcases h2 with h2 | h2
+    · rw [← h2] at h1
+      exact (Prod.mk.inj h1).2
+    · have := hhead k (mem_keys_of_mem h2)
+      rw [← h1] at this
+      exact absurd this (Key.lt_irrefl k)
+    · have := hhead k (mem_keys_of_mem h1)
+      rw [← h2] at this
+      exact absurd this (Key.lt_irrefl k)
+    · exact ih hrest h1 h2
+
 /-! ## `insertEntry` -/
 
 theorem mem_keys_insertEntry (k : Key) (v : Option Nat) (es : List Entry) (k' : Key) :
@@ -858,6 +877,22 @@ theorem Timeout.drive_elapsed_done (s : World) (slp : Sleep) (wk : Nat)
       | false =>
         rw [Timeout.drive_pending _ _ _ _ _ hd] at h ⊢
         exact ih _ h
+
+theorem Timeout.drive_now_le (s : World) (slp : Sleep) (wk : Nat) (rounds : List (List Op × Bool)) :
+    s.now ≤ (Timeout.drive s slp wk rounds).1.now := by
+  induction rounds generalizing s with
+  | nil => exact Nat.le_refl _
+  | cons r rest ih =>
+    obtain ⟨ops, b⟩ := r
+    have h1 : s.now ≤ (run s ops).now := run_now_le s ops
+    cases b with
+    | true => rw [Timeout.drive_ok]; exact h1
+    | false =>
+      cases hsd : sleepDone (run s ops).wheel slp with
+      | true => rw [Timeout.drive_elapsed _ _ _ _ _ hsd]; exact h1
+      | false =>
+        rw [Timeout.drive_pending _ _ _ _ _ hsd]
+        exact Nat.le_trans h1 (ih (afterPoll (run s ops) slp wk))
 
 /-! ## `Interval::tick` arithmetic -/
 
